@@ -38,7 +38,7 @@ Print Assumptions C04_sink_coloring.
 Theorem C04_ns_partial : forall th f s g g' l k p n,
   exec_ns_positioner th f s g = Ok g' -> layers_wf g -> NoDup (g_N g) ->
   (forall n, in_layers g n -> In n (g_N g)) ->
-  (forall a, phase2 NetworkSimplex (ns_params th g) (aux_graph f s g) = Ok a -> ns_feasible s g a) ->
+  (forall a, assign_layers NetworkSimplex (ns_params th g) (aux_graph f s g) = Ok a -> ns_feasible s g a) ->
   In l (g_L g) -> nth_error (l_nodes l) k = Some p -> nth_error (l_nodes l) (S k) = Some n ->
   nX g' p + nW g p + s <= nX g' n.
 Proof. exact ns_positioner_separation. Qed.
